@@ -42,8 +42,9 @@ import json
 XML_NS = 'http://www.w3.org/XML/1998/namespace'
 URIS = ['u1', 'u2', 'urn:x:y', 'http://www.w3.org/1999/xhtml', 'p', 'http://example.org/a?b=1&c=2']
 PREFIXES = ['p', 'q', 'x', 'ns1', 'ns2', 'html']
-LOCALS = ['a', 'b', 'c', 'd', 'item', 'x', 'A', 'a-b', 'a.b', '_u', '\xe9l', 'n1']
-ATTR_LOCALS = ['id', 'x', 'y', 'class', 'href', 'a-b', 'lang', '_k', '\xfcber']
+LOCALS = ['a', 'b', 'c', 'd', 'item', 'x', 'A', 'a-b', 'a.b', '_u', 'n1']
+HI_LOCALS = ['\xe9l', '\xfcber', '\u4e2d', 'a\u0301']
+ATTR_LOCALS = ['id', 'x', 'y', 'class', 'href', 'a-b', 'lang', '_k']
 HTML_ENTS = {'nbsp': 0xa0, 'eacute': 0xe9, 'copy': 0xa9, 'euro': 0x20ac, 'hellip': 0x2026, 'lt': 60, 'amp': 38}
 PREDEF = {'amp': '&', 'lt': '<', 'gt': '>', 'quot': '"', 'apos': "'"}
 
@@ -156,7 +157,7 @@ def _gen_elem(rng, scope, depth, o):
         if uri:
             choices.append((uri, pfx))
     ns, pfx = rng.choice(choices)
-    name = [ns, rng.choice(LOCALS)]
+    name = [ns, rng.choice(HI_LOCALS) if o['nonascii'] == 'all' and rng.random() < 0.1 else rng.choice(LOCALS)]
     attrs = []
     seen = set()
     for _ in range(rng.choice([0, 0, 1, 1, 2, 4])):
@@ -168,7 +169,7 @@ def _gen_elem(rng, scope, depth, o):
             an, ap, loc = XML_NS, 'xml', rng.choice(['lang', 'space', 'id'])
         else:
             an, ap = rng.choice(achoices)
-            loc = rng.choice(ATTR_LOCALS)
+            loc = rng.choice(HI_LOCALS) if o['nonascii'] == 'all' and rng.random() < 0.1 else rng.choice(ATTR_LOCALS)
         if (an, loc) in seen:
             continue
         seen.add((an, loc))
@@ -197,7 +198,14 @@ def _gen_elem(rng, scope, depth, o):
                 kids.append(_gen_pi(rng, o))
                 last = 'pi'
             else:
-                kids.append(_gen_cdata(rng, o))
+                cd = _gen_cdata(rng, o)
+                prev = [k for k in kids if k['t'] == 't']
+                if prev and rng.random() < 0.3:
+                    # the same characters inside and outside a CDATA section (serializer cache)
+                    v = parts_value(prev[-1]['parts'])
+                    if ']]>' not in v and (o['nonascii'] == 'all' or all(ord(c) < 128 for c in v)):
+                        cd = {'t': 'cd', 's': v}
+                kids.append(cd)
                 last = 'cd'
     elif rng.random() < 0.5:
         kids.append({'t': 't', 'parts': _parts(rng, o['nonascii'] != 'none', o['html_entities'])})
